@@ -97,4 +97,49 @@ def check_cases(b, cases, stages="as"):
             failures.append((c, "behaviour", dict(want_stdout=want_out.decode("latin1"), got_stdout=r["stdout"].decode("latin1")[:2000],
                                                   want_status=c.meta["expected_status"], got_status=r["status"],
                                                   stderr=r["stderr"].decode("latin1")[:500], timeout=r["timeout"])))
+    disagreements += sem_validate(b, runnable)
     return disagreements, failures
+
+
+SEM_STATS = dict(cases=0, src_supported=0, sh_supported=0, both=0, in_theorem_fragment=0)
+
+
+def sem_validate(b, runnable):
+    """The two semantic models of Lean (Sem/Src: meaning of the AST, Sem/Bash: meaning of the emitted lines) next to
+    the reference interpreter and /bin/bash on the same programs.  The theorem C01.bash_preserves_scalar_semantics
+    relates the two models; this ties each of them to the thing it models.  'U' = outside the fragment."""
+    if not runnable:
+        return []
+    reqs = ["SEM" + pipeline.parse_request(c)[5:] for c in runnable]
+    answers = pipeline.model_lines(b, reqs)
+    dis = []
+    for c, a in zip(runnable, answers):
+        parts = a.split(" ")
+        SEM_STATS["cases"] += 1
+        if parts[0] != "SEM" or len(parts) != 4:
+            dis.append((c, "SEM: " + a[:200], "SEM <src> <sh>"))
+            continue
+        src, sh = parts[1], parts[2]
+        c.meta["sem"] = (src, sh)
+        if parts[3] == "F":
+            SEM_STATS["in_theorem_fragment"] += 1
+            if src != "U" and sh == "U":
+                dis.append((c, "SEM-THM: a program of the theorem's fragment runs in Sem/Src (" + src + ") but not in Sem/Bash", "U"))
+        r = c.meta["run"]
+        real = "%d:%s" % (r["status"], r["stdout"].hex())
+        want = "%d:%s" % (c.meta["expected_status"], "".join(l + "\n" for l in c.meta["expected_out"]).encode().hex())
+        ok_src = src != "U" and not src.startswith(("brk", "cont"))
+        ok_sh = sh != "U" and not sh.startswith(("brk", "cont"))
+        if ok_sh:
+            SEM_STATS["sh_supported"] += 1
+            if not r["timeout"] and r["stderr"] == b"" and sh != real:
+                dis.append((c, "SEM-SH: the bash model Sem/Bash says " + sh, "/bin/bash says " + real))
+        if ok_src:
+            SEM_STATS["src_supported"] += 1
+            if src != want and real == want:
+                dis.append((c, "SEM-SRC: the source semantics Sem/Src says " + src, "reference interpreter and /bin/bash say " + want))
+        if ok_src and ok_sh:
+            SEM_STATS["both"] += 1
+            if src != sh:
+                dis.append((c, "SEM-THM: Sem/Src says " + src, "Sem/Bash says " + sh))
+    return dis
